@@ -144,8 +144,11 @@ fn check_case(c: &Case, obs: &mut Obs) -> Verdict {
 
 /// symbols 0..7 are valid UTF-8; 7.. are bytes / byte pairs that are not (latin-1 e-acute, 0xFF,
 /// a lone continuation byte, a truncated 4-byte sequence) and only occur in byte-string cases
-const SYMS: [&[u8]; 11] = [b"a", b"b", b"c", b"p", b"l", "\u{f6}".as_bytes(), "e\u{301}".as_bytes(), b"\xe9", b"\xff", b"\x80", b"\xf0\x9f"];
-const VALID_SYMS: usize = 7;
+const SYMS: [&[u8]; 15] = [
+    b"a", b"b", b"c", b"p", b"l", "\u{f6}".as_bytes(), "e\u{301}".as_bytes(), "\u{65e5}".as_bytes(), "\u{1F600}".as_bytes(),
+    b"\xe9", b"\xff", b"\x80", b"\xf0\x9f", b"\xed\xa0\x80", b"\xc0\xaf",
+];
+const VALID_SYMS: usize = 9;
 
 fn word(max: usize) -> impl Strategy<Value = Vec<usize>> {
     vec(prop_oneof![8 => 0usize..4, 2 => 0usize..VALID_SYMS, 1 => 0usize..SYMS.len()], 0..=max)
@@ -199,8 +202,44 @@ fn many_strat() -> BoxedStrategy<Case> {
         .boxed()
 }
 
+/// words of 11-99 symbols with candidates at every distance (a few edits, many edits, unrelated,
+/// much shorter or longer) and mid-range cutoffs: the pre-filters work near the cutoff
+fn mid_strat() -> BoxedStrategy<Case> {
+    (vec(0usize..4, 11..=99), vec((vec((0u8..3, any::<u16>(), 0usize..4), 0..=30), proptest::option::of(vec(0usize..4, 0..=120))), 1..=8), prop_oneof![Just(1usize), Just(3), Just(usize::MAX)], prop_oneof![3 => (30i32..96), 1 => Just(-1)], 0usize..8, any::<bool>())
+        .prop_map(|(w, cs, n, cut, pick, bytes)| {
+            let cands: Vec<BStr> = cs
+                .into_iter()
+                .map(|(es, unrelated)| {
+                    if let Some(u) = unrelated {
+                        return render(&u, false);
+                    }
+                    let mut v = w.clone();
+                    for (k, at, sym) in es {
+                        let len = v.len();
+                        match k {
+                            0 if len > 0 => {
+                                v.remove(crate::gen::pos(at, len - 1));
+                            }
+                            1 => v.insert(crate::gen::pos(at, len), sym),
+                            _ if len > 0 => {
+                                let p = crate::gen::pos(at, len - 1);
+                                v[p] = sym;
+                            }
+                            _ => {}
+                        }
+                    }
+                    render(&v, false)
+                })
+                .collect();
+            let word = render(&w, false);
+            let cutoff = if cut < 0 { ref_ratio(&word.0, &cands[pick % cands.len()].0) } else { cut as f32 / 100.0 };
+            Case { word, cands, n, cutoff, bytes }
+        })
+        .boxed()
+}
+
 fn strat(_tier: Tier) -> BoxedStrategy<Case> {
-    prop_oneof![120 => short_strat(), 2 => long_strat(), 1 => many_strat()].boxed()
+    prop_oneof![120 => short_strat(), 2 => long_strat(), 1 => many_strat(), 6 => mid_strat()].boxed()
 }
 
 fn short_strat() -> BoxedStrategy<Case> {
@@ -267,7 +306,7 @@ impl Prop for C18 {
     type Case = Case;
     const ID: &'static str = "C18";
     fn rule() -> String {
-        "cases = (word, 0-10 candidates, n in 0..6 | usize::MAX | 2^60, cutoff, str | [u8]); 1 case in ~120 has 33-120 candidates over a two/three-letter alphabet (large groups of equal ratios, n cutting through a group); 1 case in ~60 uses words of 100-300 symbols with candidates 1-6 edits away (ratios that differ by less than 1e-4); words over a 7-symbol alphabet incl. multi-byte and a combining sequence, for [u8] additionally 4 non-UTF-8 symbols (latin-1 byte, 0xFF, lone continuation byte, truncated 4-byte sequence; a character of a byte string = one scalar value or one maximal invalid subpart); candidates independent or 1-2 edits away from the word, duplicates and empty strings included; cutoff in {0, 0.5, 0.6, 1.0} | the exact ratio of one candidate (so '>= cutoff' is hit exactly) | hundredths. Valid-UTF-8 cases are also run with the word and candidates being WINDOWS OF ONE BUFFER, and ASCII cases over a caller-defined case-insensitive DiffableStr (candidates in upper case). Oracle: brute force — ratio = 2*LCS(chars)/(n+m) by an independent DP (1.0 for two empty strings), keep ratio >= cutoff, sort by ratio descending then candidate ascending (bytewise), take n, compare as value lists. Non-trivial = result non-empty and shorter than the candidate list; distinct = distinct serialized case.".into()
+        "cases = (word, 0-10 candidates, n in 0..6 | usize::MAX | 2^60, cutoff, str | [u8]); 1 case in ~120 has 33-120 candidates over a two/three-letter alphabet (large groups of equal ratios, n cutting through a group); 1 case in ~60 uses words of 100-300 symbols with candidates 1-6 edits away (ratios that differ by less than 1e-4); words over a 9-symbol alphabet incl. 2-, 3- and 4-byte characters and a combining sequence, for [u8] additionally 6 non-UTF-8 symbols (latin-1 byte, 0xFF, lone continuation byte, truncated 4-byte sequence, an encoded surrogate, an overlong form; about 1 case in 20 has a word of 11-99 symbols with candidates at every distance and mid-range cutoffs; a character of a byte string = one scalar value or one maximal invalid subpart); candidates independent or 1-2 edits away from the word, duplicates and empty strings included; cutoff in {0, 0.5, 0.6, 1.0} | the exact ratio of one candidate (so '>= cutoff' is hit exactly) | hundredths. Valid-UTF-8 cases are also run with the word and candidates being WINDOWS OF ONE BUFFER, and ASCII cases over a caller-defined case-insensitive DiffableStr (candidates in upper case). Oracle: brute force — ratio = 2*LCS(chars)/(n+m) by an independent DP (1.0 for two empty strings), keep ratio >= cutoff, sort by ratio descending then candidate ascending (bytewise), take n, compare as value lists. Non-trivial = result non-empty and shorter than the candidate list; distinct = distinct serialized case.".into()
     }
     fn assumptions() -> Vec<String> {
         vec!["ratios are computed in f32 with the same expression as the documented formula; for words up to a few hundred symbols distinct f32 ratios stay distinct under the library's scaling to u32 (exact power-of-two scaling for ratios >= 2^-8)".into()]
